@@ -242,13 +242,140 @@ def appendWith (n : Nat) (usesIsatty : Bool) (s : Setup) (level : Nat) (cs : Chu
 def append (s : Setup) (level : Nat) (cs : Chunks) : Outcome Unit Streams :=
   appendWith bufLen ttyOnlyUsesIsatty s level cs
 
-/-- several records, one after the other (the child process of the harness) -/
-def appendAll (s : Setup) (cs : Nat → Chunks) : List Nat → Outcome Unit Streams
+/-- several records, one after the other -/
+def appendAllWith (n : Nat) (usesIsatty : Bool) (s : Setup) (cs : Nat → Chunks) : List Nat → Outcome Unit Streams
   | [] => .ok {}
   | l :: ls =>
-    obind (append s l (cs l)) fun a =>
-    obind (appendAll s cs ls) fun b =>
+    obind (appendWith n usesIsatty s l (cs l)) fun a =>
+    obind (appendAllWith n usesIsatty s cs ls) fun b =>
     .ok { out := a.out ++ b.out, err := a.err ++ b.err }
+
+def appendAll (s : Setup) (cs : Nat → Chunks) (levels : List Nat) : Outcome Unit Streams :=
+  appendAllWith bufLen ttyOnlyUsesIsatty s cs levels
+
+/-! ### several appenders in one process (a PLAN)
+
+What is process-wide in the code: the environment, the two file descriptors, and
+`static COLOR_MODE: Lazy<ColorMode>` (initialised from the environment by whoever dereferences it
+first). What is per appender: the builder's two fields and the three values `build` computes. The
+model keeps the lazy cell explicit, and the builder's setter calls explicit, so that "an appender
+depends on nothing but its own target's terminal status, the environment and its own tty_only
+flag" is a theorem (`C18_appenders_independent`) and not the shape of a definition. -/
+
+/-- in which order the builder's setters are called / whether the config deserializer calls them -/
+inductive CallOrder where
+  | targetThenTtyOnly   -- `.target(t).tty_only(b)`
+  | ttyOnlyThenTarget   -- `.tty_only(b).target(t)`
+  | viaConfig           -- `ConsoleAppenderDeserializer`: `target` key, then `tty_only` key
+  deriving Repr, DecidableEq
+
+structure PlanItem where
+  target : Target
+  ttyOnly : Bool
+  order : CallOrder
+  deriving Repr, DecidableEq
+
+/-- `ConsoleAppenderBuilder` (the encoder field is the pattern, fixed per run) -/
+structure Builder where
+  target : Target := .stdout
+  ttyOnly : Bool := false
+  deriving Repr, DecidableEq
+
+/-- `fn target(mut self, target)`: stores, nothing else -/
+def Builder.setTarget (b : Builder) (t : Target) : Builder := { b with target := t }
+
+/-- `fn tty_only(mut self, tty_only)`: stores, nothing else -/
+def Builder.setTtyOnly (b : Builder) (x : Bool) : Builder := { b with ttyOnly := x }
+
+/-- the setter calls an item stands for, starting from `ConsoleAppender::builder()` -/
+def builderOf (it : PlanItem) : Builder :=
+  match it.order with
+  | .targetThenTtyOnly => (({} : Builder).setTarget it.target).setTtyOnly it.ttyOnly
+  | .ttyOnlyThenTarget => (({} : Builder).setTtyOnly it.ttyOnly).setTarget it.target
+  | .viaConfig => (({} : Builder).setTarget it.target).setTtyOnly it.ttyOnly
+
+/-- process-wide facts -/
+structure Global where
+  env : Env
+  ttyOut : Bool
+  ttyErr : Bool
+  deriving Repr, DecidableEq
+
+def Global.isatty (g : Global) : Target → Bool
+  | .stdout => g.ttyOut
+  | .stderr => g.ttyErr
+
+/-- process-wide mutable state: the `Lazy` cell of `COLOR_MODE` -/
+structure Proc where
+  colorCell : Option ColorMode := none
+  deriving Repr, DecidableEq
+
+/-- `*COLOR_MODE` -/
+def Proc.derefColorMode (p : Proc) (env : Env) : ColorMode × Proc :=
+  match p.colorCell with
+  | some m => (m, p)
+  | none => (colorMode env, { colorCell := some (colorMode env) })
+
+/-- a built `ConsoleAppender`: `writer` (kind + stream) and `do_write` -/
+structure Built where
+  target : Target
+  kind : WriterKind
+  doWrite : Bool
+  deriving Repr, DecidableEq
+
+/-- `ConsoleAppenderBuilder::build`: `ConsoleWriter::stdout()/stderr()` (dereferences COLOR_MODE,
+asks `isatty` of THAT stream's descriptor), then `do_write` -/
+def buildWith (usesIsatty : Bool) (g : Global) (p : Proc) (b : Builder) : Built × Proc :=
+  let r := p.derefColorMode g.env
+  let kind := writerKind r.1 (g.isatty b.target)
+  ({ target := b.target, kind := kind,
+     doWrite := doWriteWith usesIsatty kind (g.isatty b.target) b.ttyOnly }, r.2)
+
+def buildAllWith (usesIsatty : Bool) (g : Global) : Proc → List PlanItem → List Built × Proc
+  | p, [] => ([], p)
+  | p, it :: its =>
+    let r := buildWith usesIsatty g p (builderOf it)
+    let rs := buildAllWith usesIsatty g r.2 its
+    (r.1 :: rs.1, rs.2)
+
+def Streams.append (a b : Streams) : Streams := { out := a.out ++ b.out, err := a.err ++ b.err }
+
+/-- `ConsoleAppender::append` -/
+def appendBuilt (n : Nat) (a : Built) (level : Nat) (cs : Chunks) : Outcome Unit Streams :=
+  if a.doWrite then
+    obind (encodeChunksN n a.kind level cs) fun bs => .ok (Streams.on a.target bs)
+  else .ok {}
+
+def appendBuiltLevels (n : Nat) (a : Built) (cs : Nat → Chunks) : List Nat → Outcome Unit Streams
+  | [] => .ok {}
+  | l :: ls =>
+    obind (appendBuilt n a l (cs l)) fun x =>
+    obind (appendBuiltLevels n a cs ls) fun y => .ok (x.append y)
+
+def appendAllBuilt (n : Nat) (cs : Nat → Chunks) (levels : List Nat) : List Built → Outcome Unit Streams
+  | [] => .ok {}
+  | a :: as =>
+    obind (appendBuiltLevels n a cs levels) fun x =>
+    obind (appendAllBuilt n cs levels as) fun y => .ok (x.append y)
+
+/-- the child process of the harness: build every appender of the plan in order, then let each
+append one record per level -/
+def runPlanWith (n : Nat) (usesIsatty : Bool) (g : Global) (items : List PlanItem)
+    (cs : Nat → Chunks) (levels : List Nat) : Outcome Unit Streams :=
+  appendAllBuilt n cs levels (buildAllWith usesIsatty g {} items).1
+
+def runPlan (g : Global) (items : List PlanItem) (cs : Nat → Chunks) (levels : List Nat) :
+    Outcome Unit Streams :=
+  runPlanWith bufLen ttyOnlyUsesIsatty g items cs levels
+
+/-- the single-appender set-up an item amounts to: its own target and flag — no call order -/
+def setupOf (g : Global) (it : PlanItem) : Setup :=
+  { env := g.env, ttyOut := g.ttyOut, ttyErr := g.ttyErr, target := it.target, ttyOnly := it.ttyOnly }
+
+/-- outcomes one after the other, streams concatenated -/
+def seqStreams : List (Outcome Unit Streams) → Outcome Unit Streams
+  | [] => .ok {}
+  | x :: xs => obind x fun a => obind (seqStreams xs) fun b => .ok (a.append b)
 
 /-! ### finite tables the theorems enumerate -/
 
